@@ -38,6 +38,11 @@ type Pattern struct {
 	Elems []Elem
 	// Wild reports whether the pattern has a wildcard or bracket expression.
 	Wild bool
+	// OpenClass reports that a bracket expression holds "[:" with no ":]"
+	// after it. Both characters are then ordinary, but implementations
+	// disagree whether the "[" is a member of the set (dash) or dropped
+	// (bash); ParsePatternAlt gives the other reading.
+	OpenClass bool
 }
 
 var (
@@ -50,7 +55,13 @@ var (
 )
 
 // ParsePattern parses shell pattern notation.
-func ParsePattern(p string) (*Pattern, error) {
+func ParsePattern(p string) (*Pattern, error) { return parsePattern(p, false) }
+
+// ParsePatternAlt parses p like ParsePattern, but drops the "[" of a "[:"
+// that begins no class (see Pattern.OpenClass).
+func ParsePatternAlt(p string) (*Pattern, error) { return parsePattern(p, true) }
+
+func parsePattern(p string, alt bool) (*Pattern, error) {
 	rs := []rune(p)
 	pt := &Pattern{}
 	for i := 0; i < len(rs); i++ {
@@ -68,10 +79,11 @@ func ParsePattern(p string) (*Pattern, error) {
 			i++
 			pt.Elems = append(pt.Elems, Elem{Kind: eLit, R: rs[i]})
 		case '[':
-			e, n, err := parseBracket(rs[i:])
+			e, n, open, err := parseBracket(rs[i:], alt)
 			if err != nil {
 				return nil, err
 			}
+			pt.OpenClass = pt.OpenClass || open
 			pt.Elems = append(pt.Elems, e)
 			pt.Wild = true
 			i += n - 1
@@ -82,8 +94,8 @@ func ParsePattern(p string) (*Pattern, error) {
 	return pt, nil
 }
 
-func parseBracket(rs []rune) (Elem, int, error) {
-	e := Elem{Kind: eBracket}
+func parseBracket(rs []rune, alt bool) (e Elem, n int, open bool, err error) {
+	e = Elem{Kind: eBracket}
 	i := 1
 	if i < len(rs) && (rs[i] == '!' || rs[i] == '^') {
 		e.Neg = true
@@ -92,11 +104,11 @@ func parseBracket(rs []rune) (Elem, int, error) {
 	first := true
 	for {
 		if i >= len(rs) {
-			return e, 0, ErrMalformed
+			return e, 0, open, ErrMalformed
 		}
 		c := rs[i]
 		if c == ']' && !first {
-			return e, i + 1, nil
+			return e, i + 1, open, nil
 		}
 		first = false
 		var lo rune
@@ -104,27 +116,32 @@ func parseBracket(rs []rune) (Elem, int, error) {
 		case c == '[' && i+1 < len(rs) && (rs[i+1] == ':' || rs[i+1] == '.' || rs[i+1] == '='):
 			k := rs[i+1]
 			if k != ':' {
-				return e, 0, ErrUnmodelled
+				return e, 0, open, ErrUnmodelled
 			}
 			j := i + 2
 			for j+1 < len(rs) && !(rs[j] == k && rs[j+1] == ']') {
 				j++
 			}
 			if j+1 >= len(rs) {
-				// "[[:" without ":]": shells disagree whether "[" and ":" are
-				// then ordinary members
-				return e, 0, ErrUnmodelled
+				// "[:" without ":]": both are ordinary characters; the "[" is
+				// a member of the set in one reading and dropped in the other
+				open = true
+				if !alt {
+					e.Items = append(e.Items, bitem{lo: '[', hi: '['})
+				}
+				i++
+				continue
 			}
 			name := string(rs[i+2 : j])
 			if _, ok := classMatch(name, 'a'); !ok {
-				return e, 0, ErrMalformed
+				return e, 0, open, ErrMalformed
 			}
 			e.Items = append(e.Items, bitem{class: name})
 			i = j + 2
 			continue
 		case c == '\\':
 			if i+1 >= len(rs) {
-				return e, 0, ErrMalformed
+				return e, 0, open, ErrMalformed
 			}
 			i++
 			lo = rs[i]
@@ -139,18 +156,18 @@ func parseBracket(rs []rune) (Elem, int, error) {
 			switch hi {
 			case '\\':
 				if i >= len(rs) {
-					return e, 0, ErrMalformed
+					return e, 0, open, ErrMalformed
 				}
 				hi = rs[i]
 				i++
 			case '[':
 				// "[a-[:alpha:]]" and friends
 				if i < len(rs) && (rs[i] == ':' || rs[i] == '.' || rs[i] == '=') {
-					return e, 0, ErrUnmodelled
+					return e, 0, open, ErrUnmodelled
 				}
 			}
 			if hi < lo {
-				return e, 0, ErrMalformed
+				return e, 0, open, ErrMalformed
 			}
 			e.Items = append(e.Items, bitem{lo: lo, hi: hi})
 			continue
